@@ -143,7 +143,7 @@ theorem C06_parsed_is_sound_on_heap {h : Heap} (hs : Proofs.Struct h) (ho : Proo
 ancestors (a parent chain has fewer links than there are nodes, so the guard's bounded walk sees all of them) — every request
 that would close a cycle is rejected, and no other request is -/
 theorem C06_loop_guard_exact {h : Heap} (hs : Proofs.Struct h) (ha : Proofs.Acyc h) (n : Nat) (hn : n < h.size) (x : Id) :
-    h.isParentOrSelfNode n x = true ↔ Proofs.Anc h x n := Proofs.loop_guard_exact hs ha n hn x
+    h.isParentOrSelfNode n x = true ↔ Proofs.Anc h x n := Proofs.loop_guard_exact hs.pir ha n hn x
 
 /-- every parsed document is sound and acyclic -/
 theorem C06_parsed_acyclic (data : Bytes) (v : Spec.STree) (hp : Spec.parseRef data = .ok v) :
